@@ -27,7 +27,7 @@ RULE = (
 CLASSES = [
     "rekey", "rekey_collision", "type_only_rekey", "move", "clone", "remove", "remove_then_reinit", "shallow_copy",
     "shallow_copy_follows", "pickle_independent", "deepcopy_independent", "cache_update", "stray_planted",
-    "two_projects", "update_sp_conflict", "move_collision", "clone_collision", "move_uninitialised",
+    "two_projects", "project_named_by_relative_path", "update_sp_conflict", "move_collision", "clone_collision", "move_uninitialised",
     "stray_id_named_file", "rekey_onto_id_named_file", "stale_handle_resynced_by_remove", "gone_id_reopened", "gone_id_unknown", "stale_handle_observed", "lazy_handle_left_alone", "refused_invalid_statepoint", "stale_handle_resynced_by_reset",
     "doc_assigned_live_view_same_job", "doc_assigned_live_view_other_job",
 ]
@@ -99,6 +99,7 @@ OP = st.one_of(
     fd(op="sp_assign", h=H, sp=sps, via=st.sampled_from(["sp", "statepoint"])),
     fd(op="update_cache", p=P),
     fd(op="new_project", p=P),
+    fd(op="chdir", p=P, k=st.integers(0, 3)),
     fd(op="plant_stray", p=P, kind=st.integers(0, 4), n=st.integers(0, 2), file=st.booleans()),
     fd(op="plant_idfile", p=P, sp=sps),
     fd(op="remove", h=H),
@@ -108,7 +109,8 @@ OP = st.one_of(
 def cases(max_ops):
     prefix = st.lists(fd(op="new_init", p=P, sp=sps), min_size=0, max_size=3)
     return st.fixed_dictionaries(
-        {"two_projects": st.booleans(), "ops": st.tuples(prefix, st.lists(OP, min_size=1, max_size=max_ops)).map(lambda t: t[0] + t[1])}
+        {"two_projects": st.booleans(), "relproj": st.sampled_from([False, False, False, True]),
+         "ops": st.tuples(prefix, st.lists(OP, min_size=1, max_size=max_ops)).map(lambda t: t[0] + t[1])}
     )
 
 
